@@ -681,6 +681,7 @@ class Facts:
         self.fns = {}
         self.by_crate = {}
         self.hir = {}
+        self.consts = {}      # crate -> {path: {path, ty, body (HIR expression), loc}} for const / static items
         for f in sorted(glob.glob(os.path.join(directory, "*.json"))):
             with open(f) as fh:
                 d = json.load(fh)
@@ -694,6 +695,20 @@ class Facts:
                 self.fns[fn.id] = fn
                 self.by_crate[name].append(fn)
             self.hir[name] = {h["id"]: h for h in d["hir"]}
+            self.consts.setdefault(name, {}).update({c["path"]: c for c in d.get("consts", [])})
+
+    def const_named(self, crate, name):
+        """The const / static item a HIR path expression `name` (its last segment, or more) refers to, if there is exactly one."""
+        last = name.split("::")[-1]
+        c = [v for p, v in self.consts.get(crate, {}).items() if p == name or p.endswith("::" + name) or p.split("::")[-1] == last]
+        return c[0] if len(c) == 1 else None
+
+    def const_literals(self, crate, name, kind="str"):
+        """Literals of one kind in the body of the named const table, in source order (None: no such const)."""
+        c = self.const_named(crate, name)
+        if c is None:
+            return None
+        return [e["lit"]["v"] for e in hir_walk(c["body"]) if e.get("k") == "Lit" and e["lit"].get("lit") == kind]
 
     def find(self, crate, suffix, exact=False, allow_many=False, inline=False, keep=()):
         """Find MIR bodies in `crate` whose path ends with `suffix` (closures excluded
